@@ -7,6 +7,7 @@ import (
 	"flag"
 	"fmt"
 	"os"
+	"regexp"
 	"strconv"
 
 	"strings"
@@ -39,6 +40,45 @@ func main() {
 		pkgs := gen.Subset(1)
 		if os.Args[2] == "lookalike" {
 			pkgs = gen.Lookalikes(1)
+		}
+		if strings.HasPrefix(os.Args[2], "rand") { // rand:<seed>:<n>:<depth> or randlook:<seed>:<n>:<depth>
+			f := strings.Split(os.Args[2], ":")
+			seed, _ := strconv.Atoi(f[1])
+			n, _ := strconv.Atoi(f[2])
+			depth, _ := strconv.Atoi(f[3])
+			if f[0] == "randlook" {
+				pkgs = gen.RandomLookalikes(int64(seed), n, depth)
+			} else {
+				pkgs = gen.Random(int64(seed), n, depth)
+			}
+			if len(os.Args) > 4 && os.Args[4] == "whole" {
+				// whole packages: report what goose says about each
+				for _, q := range pkgs {
+					d.WritePackage(q)
+					tr := d.Translate(q)
+					fmt.Printf("=== package %s: exit %d, %d errors\n", q.Name, tr.Exit, len(tr.Errors))
+					for _, e := range tr.Errors {
+						fmt.Printf("  [%s] %s (line %d)\n", e.Category, e.Message, e.Line)
+					}
+					if tr.Exit > 1 || (tr.Exit != 0 && len(tr.Errors) == 0) {
+						fmt.Println(tr.Stderr)
+						lines := strings.Split(q.Files["gen.go"], "\n")
+						for _, m := range regexp.MustCompile(`gen\.go:(\d+):\d+: `).FindAllStringSubmatch(tr.Stderr, 3) {
+							ln, _ := strconv.Atoi(m[1])
+							lo := ln - 25
+							if lo < 0 {
+								lo = 0
+							}
+							hi := ln + 15
+							if hi > len(lines) {
+								hi = len(lines)
+							}
+							fmt.Printf("--- around line %d\n%s\n", ln, strings.Join(lines[lo:hi], "\n"))
+						}
+					}
+				}
+				return
+			}
 		}
 		for _, p := range pkgs {
 			for _, q := range p.Singletons() {
